@@ -346,7 +346,7 @@ def fixed_vectors():
 
 def build(seed: int, tier: str, budget: int):
     r = random.Random((seed << 8) ^ 0xC30)
-    per = (6 if tier != "thorough" else 60) * budget
+    per = (12 if tier != "thorough" else 90) * budget
     vectors = []
     vid = 0
     for imp, ct, fmt in fixed_vectors():
